@@ -252,6 +252,10 @@ func NgFile(r *vlib.Rand, small bool, libpcapSafe bool) *File {
 	f.Mixed = !libpcapSafe && r.Chance(1, 4)
 	n := r.Intn(10)
 	ns := int64(r.Intn(2000000000))*1e9 + int64(r.Intn(1e9))
+	hugeAt := -1
+	if n > 0 && r.Chance(1, 25) {
+		hugeAt = r.Intn(n)
+	}
 	for i := 0; i < n; i++ {
 		if !libpcapSafe && len(f.Ifaces) < 4 && r.Chance(1, 5) {
 			lt := f.LinkType
@@ -290,6 +294,20 @@ func NgFile(r *vlib.Rand, small bool, libpcapSafe bool) *File {
 			f.Features["decryption-secrets-block"] = true
 		}
 		d := pktData(r, small)
+		hugeIface := -1
+		if !small && !libpcapSafe && i == hugeAt {
+			// one packet above the reader's 1 MiB chunk size (legal where the interface has no snap length): sizes at and
+			// around whole chunks
+			for k, in := range f.Ifaces {
+				if in.SnapLength == 0 {
+					hugeIface = k
+				}
+			}
+			if hugeIface >= 0 {
+				d = r.Bytes([]int{1<<20 - 1, 1 << 20, 1<<20 + 1, 1<<20 + 524288, 2<<20 + 7}[r.Intn(5)])
+				f.Features["packet-above-1MiB"] = true
+			}
+		}
 		ns += int64(r.Intn(1e9))
 		if r.Chance(1, 10) {
 			ns = int64(r.U64() >> 1) // anywhere in 1970..2262
@@ -307,6 +325,10 @@ func NgFile(r *vlib.Rand, small bool, libpcapSafe bool) *File {
 		o := pktOpts(r, f)
 		if libpcapSafe {
 			ci.InterfaceIndex = r.Intn(len(f.Ifaces))
+		}
+		if hugeIface >= 0 {
+			ci.InterfaceIndex = hugeIface
+			ci.Length = len(d)
 		}
 		var werr error
 		if reflect.DeepEqual(o, pcapgo.NgPacketOptions{}) && i%2 == 0 {
